@@ -142,6 +142,38 @@ let run_saveload () =
    with End_of_file -> ());
   close_in hf; close_in tf
 
+(* usage: driver unwind <histories> <impl-transcripts>      (C19)
+   output per history: the model's transcript run with the oracle read off the implementation's
+   transcript, then "V <equal> <length> <first differing entry or -1>";
+          driver unwind-model <histories>: the model's transcript with the default oracle *)
+let run_unwind () =
+  let hf = open_in Sys.argv.(2) in
+  let tf = open_in Sys.argv.(3) in
+  (try
+     while true do
+       let h = List.map z_of_int (ints_of_line (input_line hf)) in
+       let t = transcript_of_line (input_line tf) in
+       (match unwind_verdict h t with
+        | v :: m ->
+          print_string (line_of_transcript m);
+          print_newline ();
+          print_zs "V " v
+        | [] -> failwith "unwind_verdict: empty")
+     done
+   with End_of_file -> ());
+  close_in hf; close_in tf
+
+let run_unwind_model () =
+  let hf = open_in Sys.argv.(2) in
+  (try
+     while true do
+       let h = List.map z_of_int (ints_of_line (input_line hf)) in
+       print_string (line_of_transcript (unwind_transcript h));
+       print_newline ()
+     done
+   with End_of_file -> ());
+  close_in hf
+
 let () =
   match Sys.argv.(1) with
   | "world" -> run_world ()
@@ -150,4 +182,6 @@ let () =
   | "conc" -> main_conc ()
   | "conc-enum" -> main_conc_enum ()
   | "saveload" -> run_saveload ()
+  | "unwind" -> run_unwind ()
+  | "unwind-model" -> run_unwind_model ()
   | d -> failwith ("unknown domain " ^ d)
